@@ -31,7 +31,7 @@ INDEX = {
  ]},
  "C03": {"package": "./roaring", "harnesses": [
    {"name": "VerifH03Isolation", "common": {"max_depth": 3000}, "quick": {"bounds": {"atyps": 1, "array": 2, "runs": 1, "words": 1, "bases": 1, "wordmask6": 1, "runlen": 2, "derivations": 7, "mutations": 5, "kinds": 1, "btyps": 1}}, "thorough": {"bounds": {"array": 2, "runs": 1, "words": 1, "bases": 1, "wordmask6": 1, "runlen": 2, "derivations": 7, "mutations": 7, "kinds": 2, "btyps": 2}, "max_paths": 600000}},
-   {"name": "VerifH03TimeRangeResults", "package": ".", "common": {"max_depth": 3000}, "quick": {"bounds": {"quanta": 2}}, "thorough": {"bounds": {"quanta": 3}}},
+   {"name": "VerifH03TimeRangeResults", "thorough_ok": True, "package": ".", "common": {"max_depth": 3000}, "quick": {"bounds": {"quanta": 2}}, "thorough": {"bounds": {"quanta": 3}}},
  ]},
  "C04": {"package": "./roaring", "harnesses": [
    {"name": "VerifH04RoundTrip", "common": {"max_depth": 2000}, "quick": {"bounds": {"containers": 1, "array": 2, "runs": 2, "words": 1, "bases": 1, "wordmask6": 1, "keychoices": 2}}, "thorough": {"bounds": {"containers": 2, "array": 3, "runs": 3, "words": 1, "bases": 2, "wordmask6": 1, "keychoices": 2}}},
@@ -42,7 +42,7 @@ INDEX = {
  "C05": {"package": "./roaring", "harnesses": [
    {"name": "VerifH05OpLog", "common": {"max_depth": 2000}, "quick": {"bounds": {"steps": 2, "ops": 4, "keys": 1}}, "thorough": {"bounds": {"steps": 2, "ops": 4, "keys": 2}, "max_paths": 400000}},
    {"name": "VerifH05OpLogStep", "common": {"max_depth": 2000}, "quick": {"bounds": {"steps": 1, "ops": 6, "keys": 2}}},
-   {"name": "VerifH05FragmentFile", "package": ".", "common": {"max_depth": 4000}, "quick": {"bounds": {"steps": 3, "ops": 2, "maxopn": 4, "values": 2}}, "thorough": {"bounds": {"steps": 3, "ops": 2, "maxopn": 7, "values": 3}}},
+   {"name": "VerifH05FragmentFile", "thorough_ok": True, "package": ".", "common": {"max_depth": 4000}, "quick": {"bounds": {"steps": 3, "ops": 2, "maxopn": 4, "values": 2}}, "thorough": {"bounds": {"steps": 3, "ops": 2, "maxopn": 7, "values": 3}}},
  ]},
  "C06": {"package": "./roaring", "harnesses": [
    {"name": "VerifH06UnmarshalBinary", "common": {"max_depth": 2000}, "quick": {"bounds": {"len": 12}}, "thorough": {"bounds": {"len": 20}}},
@@ -61,10 +61,10 @@ INDEX = {
    {"name": "VerifH08IntField", "common": {"max_depth": 3000}, "quick": {"bounds": {"values": 1, "magnitude": 7}}, "thorough": {"bounds": {"values": 2, "magnitude": 100}}},
    {"name": "VerifH08FieldMeta", "common": {"max_depth": 3000}, "quick": {"bounds": {}}},
    {"name": "VerifH08IndexMeta", "common": {"max_depth": 3000}, "quick": {"bounds": {}}},
-   {"name": "VerifH08IndexRestart", "common": {"max_depth": 4000, "allow_go": True}, "quick": {"bounds": {"types": 5, "writes": 1}}, "thorough": {"bounds": {"types": 5, "writes": 2}}},
+   {"name": "VerifH08IndexRestart", "thorough_ok": True, "common": {"max_depth": 4000, "allow_go": True}, "quick": {"bounds": {"types": 5, "writes": 1}}, "thorough": {"bounds": {"types": 5, "writes": 2}}},
  ]},
  "C09": {"package": "./roaring", "harnesses": [
-   {"name": "VerifH09OpLogCrash", "common": {"max_depth": 3000}, "quick": {"bounds": {"steps": 2, "ops": 4, "keys": 1}}, "thorough": {"bounds": {"steps": 2, "ops": 4, "keys": 2}}},
+   {"name": "VerifH09OpLogCrash", "thorough_ok": True, "common": {"max_depth": 3000}, "quick": {"bounds": {"steps": 2, "ops": 4, "keys": 1}}, "thorough": {"bounds": {"steps": 2, "ops": 4, "keys": 2}}},
    {"name": "VerifH09TranslateCrash", "package": ".", "common": {"max_depth": 3000}, "quick": {"bounds": {"batches": 2, "keys": 1, "keylen": 1, "xxhash_values": 2}}, "thorough": {"bounds": {"batches": 2, "keys": 2, "keylen": 2, "xxhash_values": 3}}},
    {"name": "VerifH09SnapshotFiles", "package": ".", "common": {"max_depth": 4000}, "quick": {"bounds": {"steps1": 1, "steps2": 1, "ops": 4, "rows": 1}}, "thorough": {"bounds": {"steps1": 2, "steps2": 1, "ops": 5, "rows": 2}}},
    {"name": "VerifH09FragmentCrash", "package": ".", "common": {"max_depth": 3000}, "quick": {"bounds": {"steps": 2, "ops": 8, "rows": 2}}, "thorough": {"bounds": {"steps": 2, "ops": 8, "rows": 4}}},
@@ -95,8 +95,8 @@ INDEX = {
  ]},
  "C15": {"package": ".", "harnesses": [
    {"name": "VerifH15Algebra", "common": {"max_depth": 3000}, "quick": {"bounds": {"bits": 3, "trees": 9, "colhis": 1}}, "thorough": {"bounds": {"bits": 4, "trees": 9, "colhis": 2}}},
-   {"name": "VerifH15SetNot", "common": {"max_depth": 3000}, "quick": {"bounds": {"steps": 2}}, "thorough": {"bounds": {"steps": 3}}},
-   {"name": "VerifH15Shards", "common": {"max_depth": 3000}, "quick": {"bounds": {"bits": 3, "trees": 4}}, "thorough": {"bounds": {"bits": 4, "trees": 4}}},
+   {"name": "VerifH15SetNot", "thorough_ok": True, "common": {"max_depth": 3000}, "quick": {"bounds": {"steps": 2}}, "thorough": {"bounds": {"steps": 3}}},
+   {"name": "VerifH15Shards", "thorough_ok": True, "common": {"max_depth": 3000}, "quick": {"bounds": {"bits": 3, "trees": 4}}, "thorough": {"bounds": {"bits": 4, "trees": 4}}},
    {"name": "VerifH15ShiftFullArray", "package": "./roaring", "common": {"max_depth": 3000, "max_steps": 50000000}, "quick": {"bounds": {"arraylen": 4096}}},
    {"name": "VerifH15Shift", "package": "./roaring", "common": {"max_depth": 3000}, "quick": {"bounds": {"kinds": 1, "typs": 3, "array": 2, "runs": 1, "words": 1, "near": 1, "wordmask6": 1}}, "thorough": {"bounds": {"kinds": 2, "typs": 3, "array": 3, "runs": 2, "words": 1, "near": 1}}},
  ]},
@@ -104,7 +104,7 @@ INDEX = {
    {"name": "VerifH16Rows", "common": {"max_depth": 3000}, "quick": {"bounds": {"steps": 2, "ops": 9, "rows": 2, "colhis": 1, "caches": 1}}, "thorough": {"bounds": {"steps": 2, "ops": 9, "rows": 4, "colhis": 2, "caches": 3}}},
    {"name": "VerifH16GroupBy", "thorough_ok": True, "common": {"max_depth": 3000}, "quick": {"bounds": {"patterns": 4}}, "thorough": {"bounds": {"patterns": 6}}},
    {"name": "VerifH16RowsNoCache", "common": {"max_depth": 3000}, "quick": {"bounds": {"steps": 2, "ops": 9, "rows": 2, "colhis": 1}}, "thorough": {"bounds": {"steps": 2, "ops": 9, "rows": 4, "colhis": 2}}},
-   {"name": "VerifH16RowsTime", "common": {"max_depth": 3000}, "quick": {"bounds": {"quanta": 2}}, "thorough": {"bounds": {"quanta": 4}}},
+   {"name": "VerifH16RowsTime", "thorough_ok": True, "common": {"max_depth": 3000}, "quick": {"bounds": {"quanta": 2}}, "thorough": {"bounds": {"quanta": 4}}},
  ]},
  "C17": {"package": ".", "harnesses": [
    {"name": "VerifH17MinReducer", "thorough_ok": True, "quick": {"bounds": {"partials": 3}}, "thorough": {"bounds": {"partials": 4}}},
@@ -113,7 +113,7 @@ INDEX = {
  ]},
  "C18": {"package": ".", "harnesses": [
    {"name": "VerifH18HourView", "common": {"max_depth": 3000}, "quick": {"bounds": {"days": 2}}, "thorough": {"bounds": {"days": 3}}},
-   {"name": "VerifH18SetBitViews", "common": {"max_depth": 4000, "allow_go": True}, "quick": {"bounds": {"quanta": 4, "writes": 2, "instants": 3}}, "thorough": {"bounds": {"quanta": 10, "writes": 2, "instants": 5}}},
+   {"name": "VerifH18SetBitViews", "thorough_ok": True, "common": {"max_depth": 4000, "allow_go": True}, "quick": {"bounds": {"quanta": 4, "writes": 2, "instants": 3}}, "thorough": {"bounds": {"quanta": 10, "writes": 2, "instants": 5}}},
  ]},
  "C19": {"package": ".", "harnesses": [
    {"name": "VerifH19ClearBit", "thorough_ok": True, "common": {"max_depth": 3000}, "quick": {"bounds": {"quanta": 10, "instants": 3}}, "thorough": {"bounds": {"quanta": 10, "instants": 5}}},
@@ -124,7 +124,7 @@ INDEX = {
  ]},
  "C21": {"package": ".", "harnesses": [
    {"name": "VerifH21FragSources", "common": {"max_depth": 3000}, "quick": {"bounds": {"nodes": 1, "replicas": 2, "shards": 2}}, "thorough": {"bounds": {"nodes": 2, "replicas": 2, "shards": 3}}},
-   {"name": "VerifH21Job", "common": {"max_depth": 3000}, "quick": {"bounds": {"nodes": 1, "replicas": 2, "shards": 2}}, "thorough": {"bounds": {"nodes": 2, "replicas": 2, "shards": 2}}},
+   {"name": "VerifH21Job", "thorough_ok": True, "common": {"max_depth": 3000}, "quick": {"bounds": {"nodes": 1, "replicas": 2, "shards": 2}}, "thorough": {"bounds": {"nodes": 2, "replicas": 2, "shards": 2}}},
  ]},
  "C22": {"package": ".", "harnesses": [
    {"name": "VerifH22Completions", "thorough_ok": True, "common": {"max_depth": 3000}, "quick": {"bounds": {"events": 3}}, "thorough": {"bounds": {"events": 4}}},
@@ -138,8 +138,8 @@ INDEX = {
  "C25": {"package": ".", "harnesses": [
    {"name": "VerifH25BlockDiff", "thorough_ok": True, "common": {"max_depth": 3000}, "quick": {"bounds": {"blocks": 2}}, "thorough": {"bounds": {"blocks": 3}}},
    {"name": "VerifH25AttrCodec", "common": {"max_depth": 3000}, "quick": {"bounds": {}}},
-   {"name": "VerifH25Store", "package": "./boltdb", "common": {"max_depth": 4000, "max_steps": 50000000}, "quick": {"bounds": {"steps": 2, "ops": 3, "keys": 1}}, "thorough": {"bounds": {"steps": 2, "ops": 3, "keys": 2}}},
-   {"name": "VerifH25BulkRowAttrs", "common": {"max_depth": 3000}, "quick": {"bounds": {"calls": 2}}, "thorough": {"bounds": {"calls": 3}}},
+   {"name": "VerifH25Store", "thorough_ok": True, "package": "./boltdb", "common": {"max_depth": 4000, "max_steps": 50000000}, "quick": {"bounds": {"steps": 2, "ops": 3, "keys": 1}}, "thorough": {"bounds": {"steps": 2, "ops": 3, "keys": 2}}},
+   {"name": "VerifH25BulkRowAttrs", "thorough_ok": True, "common": {"max_depth": 3000}, "quick": {"bounds": {"calls": 2}}, "thorough": {"bounds": {"calls": 3}}},
  ]},
  "C26": {"package": "./pql", "harnesses": [
    {"name": "VerifH26ParseConcrete", "quick": {"bounds": {}}},
